@@ -284,6 +284,13 @@ def c02_judge(nodes: Dict[str, Dict[str, Any]], script: Dict[str, Any], result: 
         for s in stages:
             for n, st in s.get("states", {}).items():
                 if stage_of.get(n) == s["stage"] and st in FINAL and st not in (rule[n], SHUTDOWN):
+                    nd = nodes[n]
+                    if st == FINISHED and nd.get("repeat") and any(nodes[p]["stage"] == nd["stage"] for p in nd["preds"]):
+                        # an observer of a same-stage subject is already running when the subject's task exits
+                        # unrecoverably; its own executions succeed ("success gives finished") and it may stop on
+                        # its own before the controller has declared the subject failed
+                        cnt["case_B_running_observer_finished"] = cnt.get("case_B_running_observer_finished", 0) + 1
+                        continue
                     v("final-state-neither-rule-nor-shutdown", component=n, state=st, rule=rule[n])
         if not any(st == FAILED for st in final_states.values()):
             v("unrecoverable-exit-but-no-failed-component", unrecoverable=unrec)
